@@ -103,6 +103,8 @@ class Gen:
                 fl.update(psd=True, sym=True, dt=rdt, real=True)
             elif kind == "tridiag":
                 r = {"k": "tridiag", "n": max(n, 2), "dtype": rdt, "seed": s, "symm": g.random() < 0.7, "layout": lay}
+                if g.random() < 0.2:  # off-diagonals of another precision than the main diagonal
+                    r["offdt"] = "f8" if rdt == "f4" else "f4"
                 fl.update(sym=r["symm"], dt=rdt, real=True, r=max(n, 2), c=max(n, 2))
             elif kind == "tri":
                 r = {"k": "tri", "n": n, "dtype": dt, "seed": s, "lower": g.random() < 0.5}
@@ -116,6 +118,9 @@ class Gen:
                 r = {"k": "kernel", "n": n, "dtype": rdt, "seed": s, "bs1": g.choice([1, max(1, n // 2), n]),
                      "bs2": g.choice([1, max(1, n // 2), n])}
                 fl.update(psd=True, sym=True, dt=rdt, real=True)
+                if g.random() < 0.2:  # two point sets of different precision
+                    r.update(same=False, x2dt="f8" if rdt == "f4" else "f4")
+                    fl.update(psd=False, sym=False)
             elif kind == "scalar":
                 r = {"k": "scalar", "c": g.choice([2.0, 0.5, 3.0]), "n": n, "dtype": dt}
                 fl.update(psd=True, sym=True)
@@ -839,9 +844,15 @@ KINDS = {  # name -> (slot, recipe, rows, cols)
     "sa_c16": ("Sac", _sa({"k": "generic", "n": N, "dtype": "c16", "seed": 95, "sym": "psd"}), N, N),
     "dense_f4": ("Df4", {"k": "dense", "n": N, "dtype": "f4", "seed": 96, "sym": "gen"}, N, N),
     "psd_f4": ("Pf4", _psd({"k": "dense", "n": N, "dtype": "f4", "seed": 97, "sym": "psd"}), N, N),
+    # several array parameters of different precision (the operator's dtype is that of ONE of them)
+    "tridiag_mixed": ("T3m", {"k": "tridiag", "n": N, "dtype": "f4", "offdt": "f8", "seed": 121, "symm": False}, N, N),
+    "tridiag_herm_mixed": ("T3h", {"k": "tridiag", "n": N, "dtype": "f4", "offdt": "c8", "seed": 122, "symm": False}, N, N),
+    "kernel_mixed": ("Kem", {"k": "kernel", "n": N, "dtype": "f4", "x2dt": "f8", "same": False, "seed": 123, "bs1": 1, "bs2": 2},
+                     N, N),
 }
 KIND_DTYPE = {"dense_c16": "c16", "psd_c16": "c16", "diag_c16": "c16", "adj_c16": "c16", "sa_c16": "c16",
-              "dense_f4": "f4", "psd_f4": "f4", "fft": "c16"}
+              "dense_f4": "f4", "psd_f4": "f4", "fft": "c16", "tridiag_mixed": "f4", "tridiag_herm_mixed": "f4",
+              "kernel_mixed": "f4"}
 for _k, (_slot, _r, _rows, _cols) in KINDS.items():
     _dt = KIND_DTYPE.get(_k, "f8")
     ALPHABET["mv_" + _k] = [mk(_slot, _r), call("matvec", A=S(_slot), x=arr([_cols], _dt, 31))]
@@ -1354,5 +1365,23 @@ def matrix_programs_c18():
                 s["id"] = j
             out.append({"name": "%s/psd_%s" % (ename, kname),
                         "program": {"property": "C18", "run_seed": 0, "rng0": 6, "config": {"matrix": [ename, "psd_" + kname]},
+                                    "mode": "explicit", "steps": steps}})
+    # the progress bar's terminal goes away (EPIPE) at the first / a later update / at close, inside every loop that can
+    # show one, with caller-owned right-hand sides and initial guesses; then the same call again, undisturbed
+    PB = _psd(DN) if DN.get("k") != "ann" else DN
+    for ename, body in [("cg_pbar", call("cg", A=S("mp"), b=arr([N, 2], "f8", 62), x0=arr([N, 2], "f8", 63), max_iters=4, pbar=True)),
+                        ("gmres_pbar", call("gmres", A=S("mp"), b=arr([N], "f8", 56), x0=arr([N], "f8", 57), max_iters=3,
+                                            pbar=True)),
+                        ("lanczos_pbar", call("lanczos", A=S("mp"), v0=arr([N], "f8", 59), max_iters=3, pbar=True)),
+                        ("arnoldi_pbar", call("arnoldi", A=S("mp"), v0=arr([N], "f8", 59), max_iters=3, pbar=True)),
+                        ("solve_cg_pbar", call("solve", A=S("mp"), b=arr([N], "f8", 56), alg="CG",
+                                               akw={"max_iters": 4, "pbar": True}, x0=arr([N], "f8", 57)))]:
+        for at in (0, 1, 3, 40):
+            faulted = dict(copy.deepcopy(body), x={"pbar_fail": at})
+            steps = [mk("mp", PB), faulted, copy.deepcopy(body)]
+            for j, st in enumerate(steps):
+                st["id"] = j
+            out.append({"name": "%s/fail_at_%d" % (ename, at),
+                        "program": {"property": "C18", "run_seed": 0, "rng0": 6, "config": {"matrix": [ename, "pbar_fail", at]},
                                     "mode": "explicit", "steps": steps}})
     return out
